@@ -31,7 +31,7 @@ func TestCheck(t *testing.T) {
 	r.Require("compare_calls", 500)
 	r.Set("failpoints_armed", os.Getenv("VERIF_FAILPOINTS"))
 
-	n := r.N(3000, 300000)
+	n := r.N(12000, 300000)
 	r.Cases(n, 0, func(c *kit.Case) {
 		res := qbftsim.RunTimelyCase(c.Rng, c.Idx)
 		for _, f := range res.Findings {
